@@ -780,3 +780,63 @@ func manyValues(tag, key string) []string {
 	}
 	return out
 }
+
+// checkC17Nested: help with a subcommand active.  The options of the active subcommand are printed four
+// columns further in; the description column is the maximum over ALL rows, the indentation counted.  The
+// subcommand's longest name is chosen around the top level's longest (a few characters shorter, equal,
+// longer), which is where a name of the subcommand starts to decide the column.
+func checkC17Nested(c *Ctx, n int) {
+	r := c.Rng
+	for i := 0; i < n; i++ {
+		L := 6 + r.Intn(14)
+		delta := r.Intn(8) - 5 // the subcommand's long name is L+delta characters long
+		if L+delta < 2 {
+			delta = 0
+		}
+		name := func(k int, ch rune) string { return strings.Repeat(string(ch), k) }
+		topCh, subCh := 't', 's'
+		if r.Intn(3) == 0 {
+			topCh, subCh = 'é', '語'
+		}
+		subTy := []string{"bool", "str", "int"}[r.Intn(3)]
+		subTag := fmt.Sprintf(`long:"%s" description:"desc-of-SubOpt-end sub"`, name(L+delta, subCh))
+		if subTy != "bool" && r.Intn(2) == 0 {
+			subTag += ` value-name:"N"`
+		}
+		topTag := fmt.Sprintf(`long:"%s" description:"desc-of-TopOpt-end top"`, name(L, topCh))
+		if r.Intn(2) == 0 {
+			topTag += ` short:"t"`
+		}
+		sub := &StructDesc{Fields: []FieldDesc{{Name: "SubOpt", Exported: true, Kind: "v", Ty: subTy, Tag: subTag}}}
+		if r.Intn(2) == 0 {
+			sub.Fields = append(sub.Fields, FieldDesc{Name: "SubFlag", Exported: true, Kind: "v", Ty: "bool", Tag: `short:"x" description:"desc-of-SubFlag-end flag"`})
+		}
+		root := &StructDesc{Fields: []FieldDesc{
+			{Name: "TopOpt", Exported: true, Kind: "v", Ty: "bool", Tag: topTag},
+			{Name: "Sub", Exported: true, Kind: "s", Sub: sub, Tag: `command:"sub" description:"the sub command"`}}}
+		cs := &Case{Name: "app", NsDelim: ".", EnvNsDelim: "_"}
+		if r.Intn(2) == 0 {
+			cs.Opts |= flags.HelpFlag
+		}
+		cs.Build = []BuildOp{{Kind: "addgroup", Target: 1, Short: "Application Options", Struct: root}}
+		cols := []int{80, 120, 60}[r.Intn(3)]
+		cs.Ops = []Op{{Kind: "parse", Args: []string{"sub"}}, {Kind: "help", Cols: effCols(cols)}}
+		cs.Description = describeOps(cs)
+		c.RunCases([]*Case{cs}, func(cr *CaseResult) {
+			c.classifyCase(cr)
+			c.Class(fmt.Sprintf("c17/nested: sub-name minus top-name = %d", delta))
+			c.Distinct(cs.Description + topTag + subTag)
+			for _, l := range cr.Impl {
+				if l == "HELP PANIC" || strings.HasPrefix(l, "PANIC") {
+					c.Check("help-never-panics", false, "C17:help-panic", map[string]interface{}{"case": cs.Description, "top_option": topTag, "sub_option": subTag, "case_file": c.saveCase(cr)}, l, "normal return")
+					return
+				}
+			}
+			helpL := firstLine(cr.Impl, "HELP ")
+			if strings.HasPrefix(helpL, "HELP x") {
+				help, _ := unhx(helpL[5:])
+				layoutOracle(c, cr, help, effCols(cols))
+			}
+		})
+	}
+}
